@@ -907,7 +907,9 @@ def within_envelope(glyph, p, got, delta, tol_rgb=8, tol_a=0.04):
     `delta` (viewBox units)?  Absorbs integer rounding of gradient geometry near steep or
     discontinuous (repeat) colour lines."""
     cols = []
-    for k in (1.0, 0.5):
+    # (the tiny displacements pick up both one-sided limits when p sits exactly on a
+    # discontinuity of a repeating colour line)
+    for k in (1.0, 0.5, 0.05, 0.001):
         for dx, dy in ((1, 0), (-1, 0), (0, 1), (0, -1), (0.7, 0.7), (-0.7, 0.7), (0.7, -0.7), (-0.7, -0.7)):
             c = spec_color(glyph, (p[0] + k * delta * dx, p[1] + k * delta * dy))
             if c is None:
